@@ -84,6 +84,28 @@ Section Cont.
     pose proof (Phi_incr _ _ H0). lra.
   Qed.
 
+  (** the wider the proposal, the smaller the acceptance probability of one draw - so the expected
+      number of draws per jump, 1 / acc, never decreases when an adaptive scale grows *)
+  Theorem acc_antitone (lo hi y s1 s2 : R) : 0 < s1 <= s2 -> lo <= y <= hi ->
+    acc lo hi s2 y <= acc lo hi s1 y.
+  Proof.
+    intros [H1 H2] [Hl Hh]. unfold acc, massC.
+    assert (Hi : / s2 <= / s1) by (apply Rinv_le_contravar; lra).
+    assert (A : (hi - y) / s2 <= (hi - y) / s1) by (unfold Rdiv; apply Rmult_le_compat_l; lra).
+    assert (B : (lo - y) / s1 <= (lo - y) / s2).
+    { unfold Rdiv. replace ((lo - y) * / s1) with (- ((y - lo) * / s1)) by ring.
+      replace ((lo - y) * / s2) with (- ((y - lo) * / s2)) by ring.
+      apply Ropp_le_contravar. apply Rmult_le_compat_l; lra. }
+    assert (Pm : forall a b, a <= b -> Phi a <= Phi b).
+    { intros a b [Hab| ->]; [left; apply Phi_incr; exact Hab|right; reflexivity]. }
+    pose proof (Pm _ _ A). pose proof (Pm _ _ B). lra.
+  Qed.
+  Corollary expected_draws_monotone (lo hi y s1 s2 : R) : 0 < s1 <= s2 -> lo <= y <= hi -> lo < hi ->
+    / acc lo hi s1 y <= / acc lo hi s2 y.
+  Proof.
+    intros Hs Hy Hw. apply Rinv_le_contravar; [apply acc_pos; lra|apply acc_antitone; assumption].
+  Qed.
+
   (** ** Eigenvector: a one-dimensional normal step along a unit direction *)
   Theorem eig_even (s dx : R) : eig_logpdf l2p s (- dx) = eig_logpdf l2p s dx.
   Proof.
